@@ -67,6 +67,17 @@ pub fn geometry_cfg(ft: FatType, bps: u16, spc: u32, fats: u8, root_entries: u16
     Some(vol::cfg_from(&spec.name, img, cands))
 }
 
+pub fn grid_prefix(cs: u32) -> Vec<Op> {
+    use harness::sess::DirRef;
+    let r = DirRef::Root;
+    vec![
+        Op::CreateFile { base: r, path: "a".into(), keep: Some(0) },
+        Op::WriteAll { h: 0, len: cs + 1 },
+        Op::CreateDir { base: r, path: "d".into(), keep: None },
+        Op::CreateFile { base: r, path: "d/a".into(), keep: Some(1) },
+    ]
+}
+
 /// geometry grid G (pairwise-ish subset in the quick tier)
 pub fn grid(th: bool) -> Vec<Cfg> {
     let mut v = Vec::new();
@@ -214,7 +225,12 @@ pub fn specs(tier: &str, _prop: &str) -> Vec<ExpSpec> {
             let b = st.read_vec(0, 512);
             harness::decoder::parse_raw(&b).map(|g| g.cluster_size() as u32).unwrap_or(512)
         };
-        v.push(ExpSpec::new(c, alpha::mixed(cs), 2));
+        v.push(ExpSpec::new(c.clone(), alpha::mixed(cs), 2));
+        // the same geometry with two open files (one holding data in two clusters) and a directory: the two explored
+        // calls then include writes, truncations, removals of entries with data and moves with these cluster sizes
+        let mut c2 = c;
+        c2.name = format!("{}-pre", c2.name);
+        v.push(ExpSpec::new(c2, alpha::mixed(cs), 2).with_prefix(crate::c03::grid_prefix(cs)));
     }
     v.extend(garbage_specs(th));
     v.extend(fragmented_dir_specs(th));
